@@ -326,6 +326,20 @@ def r_pair(A, ctx, scope, rule="R-PAIR"):
     ctx.floor(rule, n, scope.get("floor", 12))
 
 
+def _is_zeros_or_prev(v, loopvar):
+    """np.zeros(...) / a copy of the results indexed at <loopvar> - 1 / a conditional of both"""
+    if isinstance(v, ast.IfExp):
+        return _is_zeros_or_prev(v.body, loopvar) and _is_zeros_or_prev(v.orelse, loopvar)
+    if isinstance(v, ast.Call) and ast.unparse(v.func) in ("np.zeros", "np.zeros_like"):
+        return True
+    if isinstance(v, ast.Call) and isinstance(v.func, ast.Attribute) and v.func.attr == "copy":
+        for sub in ast.walk(v.func.value):
+            if isinstance(sub, ast.BinOp) and isinstance(sub.op, ast.Sub) and isinstance(sub.left, ast.Name) \
+                    and sub.left.id == loopvar and isinstance(sub.right, ast.Constant) and sub.right.value == 1:
+                return True
+    return False
+
+
 # --------------------------------------------------------------------- R-PATH
 def r_path(A, ctx, scope, rule="R-PATH"):
     ctx.rule(rule, "path discipline: in every `path` loop the penalty strength is set "
@@ -428,6 +442,33 @@ def r_path(A, ctx, scope, rule="R-PATH"):
                             wa = cfg.nodes[w_].ast
                             if not (isinstance(wa, ast.Assign) and isinstance(wa.value, ast.Call)
                                     and ast.unparse(wa.value.func) in ("np.zeros", "np.zeros_like")):
+                                okz = False
+                    if isinstance(warg, ast.Name) and not cfg.nodes[d].loops:
+                        # a buffer created once before the loop is updated in place by every
+                        # solve: it matches the next start point only if that start is zeros
+                        # (first step), a copy of the PREVIOUS column of the results, or if the
+                        # buffer is recomputed on the way from that start definition to solve
+                        xdefs_in_loop = {x for x in rd.get(cnode, {}).get(xarg.id, ()) if x >= 0 and x != d}
+                        tv = lp.target.id if isinstance(lp.target, ast.Name) else None
+                        for w_ in sorted(x for x in rd.get(cnode, {}).get(warg.id, ()) if x >= 0):
+                            wa = cfg.nodes[w_].ast
+                            if not isinstance(wa, ast.Assign):
+                                continue
+                            if _is_zeros_or_prev(wa.value, tv):
+                                continue
+                            # reachable from this start definition to solve without redefining Xw?
+                            seen_, work = {w_}, [w_]
+                            stale = False
+                            while work:
+                                u = work.pop()
+                                for s_ in cfg.succ[u]:
+                                    if s_ == cnode:
+                                        stale = True
+                                    if s_ in seen_ or s_ in xdefs_in_loop or s_ == cnode:
+                                        continue
+                                    seen_.add(s_)
+                                    work.append(s_)
+                            if stale:
                                 okz = False
                     ctx.ob(rule, key, okz,
                            what="model fit initialised to zeros although the start point "
